@@ -1,7 +1,7 @@
 (* GENERATED from the source of the repository by harness/srcfacts on every run -- do not edit. *)
 From Coq Require Import ZArith List.
 Import ListNotations.
-Open Scope Z_scope.
+Local Open Scope Z_scope.
 
 (* package cache *)
 Definition NoExpiration : Z := (-2000000000).
